@@ -146,7 +146,8 @@ def rand_tree(rnd, depth, budget):
         if y < 0.6:
             return {'number': float(rnd.choice([0, 1, 2, 10, 2.5, 1e21, 1e-7, 123456789, 0.1]))}
         if y < 0.8:
-            return {'string': ''.join(rnd.choice("ab '\"\\(),") for _ in range(rnd.randint(0, 4)))}
+            # any character may stand inside a string literal of an expression text - also a raw line feed, tab or carriage return
+            return {'string': ''.join(rnd.choice("ab '\"\\(),\n\t\r#") for _ in range(rnd.randint(0, 4)))}
         return {'variable': rnd.choice(['x y', 'a]b', 'p\\q', 'n.m', '1st'])}
     budget[0] -= 1
     if x < 0.7:
